@@ -214,7 +214,7 @@ impl Sess {
                     b = fsts.iter().collect();
                 } else if all_whole && o % 4 == 2 {
                     // (extending a builder that already holds a stream keeps the order of addition)
-                    let first = if o % 8 == 2 { 1 } else { 0 };
+                    let first = if o % 8 == 6 { 0 } else { 1 };
                     if first == 1 && !fsts.is_empty() {
                         b.push(&fsts[0]);
                     }
@@ -246,7 +246,7 @@ impl Sess {
                 if all_whole && o % 4 == 1 {
                     b = maps.iter().collect();
                 } else if all_whole && o % 4 == 2 {
-                    let first = if o % 8 == 2 { 1 } else { 0 };
+                    let first = if o % 8 == 6 { 0 } else { 1 };
                     if first == 1 && !maps.is_empty() {
                         b.push(&maps[0]);
                     }
